@@ -49,6 +49,10 @@ type c17Case struct {
 	Limit     int    `json:"limit"`
 	TimeoutMs int    `json:"timeout_ms"`
 	NoFacts   bool   `json:"nofacts"` // do not read the store back (sizing runs)
+	// TStore: also configure engine.WithTemporalStore(factstore.NewTemporalStore()) and
+	// WithEvaluationTime, as the interpreter always does. The program stays non-temporal:
+	// the ordinary store must be limited exactly as without the option.
+	TStore bool `json:"tstore"`
 }
 
 type c17Out struct {
@@ -62,6 +66,8 @@ type c17Out struct {
 	EMsg    string     `json:"emsg,omitempty"`
 	Ms      int64      `json:"ms"`
 	Facts   []any      `json:"facts"`
+	// facts in the configured temporal store at return (tstore runs; 0 for plain programs)
+	Temporal int `json:"temporal"`
 }
 
 func constJSON(c ast.Constant) any {
@@ -143,6 +149,19 @@ func readBack(store factstore.FactStore) []any {
 	return facts
 }
 
+// evalTime is the fixed evaluation time of every run with a temporal store.
+var evalTime = time.Date(2024, 1, 1, 0, 0, 0, 0, time.UTC)
+
+// guardExpiries counts the evaluations of this process that did not return within the
+// guard. Each of them is a verdict (b) and leaves a goroutine behind that keeps computing;
+// after maxGuardExpiries the remaining cases of the batch are answered with stage
+// "skipped" (the check has its verdict; the unchanged tree never gets here).
+var guardExpiries int
+
+const maxGuardExpiries = 3
+
+func breakerOpen() bool { return guardExpiries >= maxGuardExpiries }
+
 // guarded runs f under the wall-clock guard: ("", nil-or-error) | ("timeout") | ("panic")
 func guarded(timeout time.Duration, f func() error) (class string, msg string, ms int64) {
 	type res struct {
@@ -170,6 +189,7 @@ func guarded(timeout time.Duration, f func() error) (class string, msg string, m
 		}
 		return "", "", ms
 	case <-time.After(timeout):
+		guardExpiries++
 		return "timeout", "", time.Since(start).Milliseconds()
 	}
 }
@@ -206,6 +226,9 @@ func runC17(in json.RawMessage) (any, error) {
 	}
 	if c.Limit < 1 {
 		return nil, fmt.Errorf("limit must be >= 1")
+	}
+	if breakerOpen() {
+		return c17Out{Stage: "skipped", Msg: "guard expired on earlier cases of this batch"}, nil
 	}
 	unit, err := parse.Unit(strings.NewReader(c.Src))
 	if err != nil {
@@ -275,6 +298,11 @@ func runC17(in json.RawMessage) (any, error) {
 	if c.Det {
 		opts = append(opts, engine.WithDeterministicOrder())
 	}
+	var ts *factstore.TemporalStore
+	if c.TStore {
+		ts = factstore.NewTemporalStore()
+		opts = append(opts, engine.WithTemporalStore(ts), engine.WithEvaluationTime(evalTime))
+	}
 	out.Err, out.EMsg, out.Ms = guarded(time.Duration(c.TimeoutMs)*time.Millisecond, func() error {
 		_, err := engine.EvalStratifiedProgramWithStats(info, strata, predToStratum, store, opts...)
 		return err
@@ -285,6 +313,9 @@ func runC17(in json.RawMessage) (any, error) {
 		return out, nil
 	}
 	out.NAfter = store.EstimateFactCount()
+	if ts != nil {
+		out.Temporal = ts.EstimateFactCount()
+	}
 	if c.NoFacts {
 		out.Facts = []any{}
 	} else {
